@@ -37,3 +37,16 @@ package dkv
 //@   ensures forall(0, seqlen(result), func(i int) bool { return seqat(result, i) != nil && has(db.live, string(seqat(result, i).Key())) && hasprefix(seqat(result, i).Key(), prefix) })
 //@   ensures forall(0, seqlen(result), func(i int) bool { return forall(0, i, func(j int) bool { return string(seqat(result, j).Key()) < string(seqat(result, i).Key()) }) })
 //@   ensures forall(func(k string) bool { return has(db.live, k) && hasprefix(k, prefix) ==> exists(0, seqlen(result), func(i int) bool { return string(seqat(result, i).Key()) == k }) })
+
+// NeedsTable answers for every retained checkpoint; UpdateRetainedCheckpoints
+// narrows the retained set first and saves afterwards (WAL files of dropped
+// checkpoints go only after the save).
+//@ func DB.NeedsTable
+//@   property C09
+//@   nosafety
+//@   ensures result == exists(0, len(db.checkpoints.checkpoints), func(j int) bool { return has(db.checkpoints.checkpoints[j].tableURIset, filePath) })
+
+//@ func DB.UpdateRetainedCheckpoints
+//@   property C09
+//@   nosafety
+//@   order Save after RetainOnly
